@@ -499,7 +499,8 @@ func (h *harness) runShapes(t *testing.T) {
 	}
 	sub := func() *structD {
 		return &structD{Fields: []*fieldD{{GoName: "X", Src: "json", Key: "x", Kind: reflect.Int, Rng: &rangeD{HasL: true, HasR: true, L: 1, R: 5, LInc: true, RInc: true}},
-			{GoName: "Y", Src: "json", Key: "y", Kind: reflect.String, Opt: optPlain, HasDef: true, Def: "dy"}}}
+			{GoName: "Y", Src: "json", Key: "y", Kind: reflect.String, Opt: optPlain, HasDef: true, Def: "dy"},
+			{GoName: "W", Src: "json", Key: "Wk", Kind: reflect.String}}}
 	}
 	shapes := []shape{
 		{"scalar-ptr1", func(k reflect.Kind) *fieldD { return &fieldD{Kind: k, Ptr: 1} }},
@@ -542,7 +543,7 @@ func (h *harness) runShapes(t *testing.T) {
 			return &fieldD{Kind: reflect.Struct, Ptr: 1, Embedded: true, Opt: optPlain, Sub: sub()}
 		}},
 	}
-	ents := []string{"json", "yaml", "toml", "jsonmap"}
+	ents := []string{"json", "yaml", "toml", "jsonmap", "lower"}
 	kit.Run(t, "C08", "shapes", len(shapes), func(c *kit.Case) {
 		sh := shapes[c.Index]
 		kinds := allPrims
